@@ -67,7 +67,17 @@ def _required():
            "phout_sample_queue_1", "phout_sample_queue_2", "phout_sample_queue_16", "phout_small_queue_and_shots_overlap",
            "sched_startup_delayed", "sched_discard_storm", "sched_discard_storm_agg_phout",
            "sched_discard_storm_after_delayed_startup_phout_small_queue", "run_longer_than_flush_period",
-           "discards_reported_across_periodic_flush", "discards_reported_across_periodic_flush_phout_small_queue"]
+           "discards_reported_across_periodic_flush", "discards_reported_across_periodic_flush_phout_small_queue",
+           # http guns that dial through the DNS caching dialer: a target named by a host name that cannot be pre-resolved when
+           # the gun section is decoded; shared clients; connections opened all through the run (after seeded defect C11/m12)
+           "obj_http_target_by_ip", "obj_http_target_by_host_name_reachable_at_decode",
+           "obj_http_target_by_host_name_unreachable_at_decode", "obj_http_keep_alives_disabled",
+           "obj_http_target_drops_connections", "obj_dns_caching_dialer_http", "obj_dns_caching_dialer_http_scenario",
+           "obj_dns_caching_dialer_of_shared_client", "obj_dns_caching_dialer_of_shared_client_http",
+           "obj_dns_caching_dialer_of_shared_client_http_scenario", "obj_dns_caching_dialer_of_shared_client_redialing",
+           "obj_dns_caching_dialer_per_instance_redialing", "dns_cache_on_target_not_pre_resolved",
+           "dns_cache_on_and_shots_overlap", "dns_cache_on_shared_client_and_shots_overlap",
+           "dns_cache_on_shared_client_redialing_while_shots_overlap", "http_redialing_while_shots_overlap"]
     cls += ["obj_http_" + c for c in per_scen] + ["obj_grpc_" + c for c in per_scen]
     dropped = set()
     for fid in _known_ids():
@@ -118,7 +128,18 @@ SPEC = {
              "discard_overflow they drop them one after the other - acquire, give back, report the `discarded` sample - as fast as the "
              "provider hands the ammo out, which takes beyond the 1 s mark (120 tokens per ms up to the mark and 2-6 thousand more; "
              "measured: the times of the first and the last discarded acquisition), then the ammo of the case itself are shot as in any "
-             "other case; more than 8 of 10 storms report to phout, three quarters of those with `sample-queue-size` 1, 2 or 16. Scenarios are built from switches, one per shared "
+             "other case; more than 8 of 10 storms report to phout, three quarters of those with `sample-queue-size` 1, 2 or 16. The http and "
+             "http/scenario guns are given their target by IP (`127.0.0.1:port`, about 4 cases of 10), by host name "
+             "(`localhost:port`) while the target listens (1-2 of 10; both are pre-resolved when the gun section is decoded, which "
+             "switches `dns-cache` off) or, in about 4 cases of 10, by host name while nothing listens on the target's port yet (the "
+             "port is reserved by a bound socket that never listens, so the attempt is refused at once): pre-resolving fails - the "
+             "harness reads the gun's warning from the global logger - `dns-cache: true`, the documented default, stays in "
+             "force and every client dials through the DNS caching dialer and the process-wide cache behind it; the target comes "
+             "up on that port after the config is decoded and before the engine runs the pool. With shared-client (half of these "
+             "cases) the 1-3 clients and their dialers belong to all instances at once. Connections are opened all through the run, "
+             "not only by the first shots: `disable-keep-alives: true` in about 3 cases of 10, the target answering every k-th "
+             "request (k = 1, 2, 3, 5) with `Connection: close` in about 4 of 10, and a shared client keeps only two idle connections "
+             "(net/http's default) for all its instances anyway; measured: connections the target accepted against instances. Scenarios are built from switches, one per shared "
              "object: preprocessor row mapping source.users[next|rand|last] on a file/csv or file/json source, [next|rand|last] indexing "
              "of an array taken from an earlier response, randInt / randString / uuid as template functions and as preprocessor "
              "functions, a `variables` source with randomised values, header / metadata maps (none, constants, templates), var/jsonpath, "
@@ -149,7 +170,13 @@ SPEC = {
                # classes added after seeded defect C11/m11 (phout flushes periodically while instances find the sample queue full)
                _T + "/phout_small_queue_and_shots_overlap": 0.08, _T + "/sched_discard_storm": 0.02,
                _T + "/discards_reported_across_periodic_flush": 0.015,
-               _T + "/discards_reported_across_periodic_flush_phout_small_queue": 0.008},
+               _T + "/discards_reported_across_periodic_flush_phout_small_queue": 0.008,
+               # classes added after seeded defect C11/m12 (DNS caching dialer of a shared client dialling for several instances at once)
+               _T + "/dns_cache_on_target_not_pre_resolved": 0.1, _T + "/dns_cache_on_shared_client_and_shots_overlap": 0.04,
+               _T + "/dns_cache_on_shared_client_redialing_while_shots_overlap": 0.03,
+               _T + "/obj_dns_caching_dialer_of_shared_client_http": 0.015,
+               _T + "/obj_dns_caching_dialer_of_shared_client_http_scenario": 0.015,
+               _T + "/http_redialing_while_shots_overlap": 0.12},
     "required_classes": _required(),
     "manifest": {
         "technique": ("property testing (rapid) under the Go race detector: generated pool configurations run by the real engine in a child "
@@ -175,7 +202,11 @@ SPEC = {
                  "pool arrives with exactly the body and the headers of the entry its URI names, byte by byte - also bodies of tens of "
                  "KiB, which the gun is still reading from the ammo while other instances acquire theirs; with a phout "
                  "`sample-queue-size` as small as 1 and all instances reporting discarded shots at full speed while the aggregator "
-                 "flushes periodically, the run ends without error, without a race report and every sample is one well-formed line."),
+                 "flushes periodically, the run ends without error, without a race report and every sample is one well-formed line; "
+                 "http guns whose clients - shared by all instances or not - dial through the DNS caching dialer (target named by a "
+                 "host name that came up only after the config was read), with connections opened all through the run by several "
+                 "instances at once, run without a race report, all counts above hold exactly as for a target named by IP, and no "
+                 "gun ever dials an empty address (`missing address` is never a transport error of a busy machine)."),
         "note": ("Race freedom is established only on the schedules that occurred (each case runs the pool twice; a failing case and its "
                  "shrink candidates are re-run up to 12 times). The race detector only sees accesses that are unordered by "
                  "happens-before; the engine's own atomic counters order whole shots, so only shots that really overlap in time can "
